@@ -249,7 +249,7 @@ func classFor(clause string, d Data, doc *Body) string {
 	if (clause == "generated-unparseable" || clause == "encode-panic") && firstKeyFor(doc) {
 		return "c16.generated-unparseable.map-first-key-for"
 	}
-	if (clause == "json-template-value-mismatch" || clause == "hclsimple-json-template-value-mismatch") && loneCRThenDoubledIntroducer(doc) {
+	if c := strings.Replace(clause, "-merged", "", 1); (c == "json-template-value-mismatch" || c == "hclsimple-json-template-value-mismatch") && loneCRThenDoubledIntroducer(doc) {
 		return "c16.json-template-value-mismatch.lone-cr-then-doubled-introducer"
 	}
 	return "c16." + clause + "." + d.Family
@@ -354,13 +354,29 @@ func judgeRoundTrip(d Data, rt reflect.Type, vp reflect.Value) engine.Outcome {
 
 	// -- oracle 2: the JSON twin, literal-only mode (nil context) and full
 	// expression mode (empty context; template introducers escaped)
-	for _, o := range []jsonOpts{{false, false}, {false, true}, {true, false}, {true, true}} {
+	// x nesting form: per-block label nesting (objects / arrays of objects)
+	// and the merged label tree of each run of blocks of one type (objects /
+	// arrays of objects); a merged form that renders to the same bytes as a
+	// per-block one (no two consecutive blocks of one type) is not repeated.
+	rendered := map[string]bool{}
+	for _, o := range []jsonOpts{
+		{tmpl: false, arrays: false}, {tmpl: false, arrays: true}, {tmpl: true, arrays: false}, {tmpl: true, arrays: true},
+		{tmpl: false, arrays: false, merged: true}, {tmpl: false, arrays: true, merged: true}, {tmpl: true, arrays: false, merged: true}, {tmpl: true, arrays: true, merged: true},
+	} {
 		src := renderJSON(doc, o)
+		if key := fmt.Sprint(o.tmpl) + string(src); rendered[key] {
+			continue
+		} else {
+			rendered[key] = true
+		}
 		var ctx *hcl.EvalContext
 		mode := "literal"
 		if o.tmpl {
 			ctx = &hcl.EvalContext{}
 			mode = "template"
+		}
+		if o.merged {
+			mode += "-merged"
 		}
 		f, diags := hcljson.Parse(src, "x.json")
 		if diags.HasErrors() {
